@@ -130,10 +130,15 @@ Inductive ctype :=
 Inductive dflt :=
 | DNull                (* DEFAULT NULL *)
 | DQuoted (s : str)    (* a literal; s is the value converted to the column type, printed with %v *)
-| DNow (p : N).        (* CURRENT_TIMESTAMP[(p)] *)
+| DNow (p : N)         (* CURRENT_TIMESTAMP[(p)] *)
+| DExpr (e : str)      (* (expr): the expression text is opaque, parenthesis-balanced *)
+| DBit (bits : str)    (* b'101'  (fmt %b of the converted value) *)
+| DHex (h : str).      (* 0x616263 (fmt %X of the literal bytes) *)
 
+(* cgen = Some (e, stored): GENERATED ALWAYS AS (e) [STORED]; e is opaque, parenthesis-balanced *)
 Record column := mkcol {
-  cname : str; cty : ctype; cnull : bool; cauto : bool; cdef : option dflt; conupd : option N; ccomment : str }.
+  cname : str; cty : ctype; cnull : bool; cauto : bool; cgen : option (str * bool); cdef : option dflt;
+  conupd : option N; ccomment : str }.
 
 Record index := mkidx { iuniq : bool; iname : str; icols : list (str * option str); icomment : str }.
 
@@ -142,9 +147,11 @@ Inductive action := ACascade | ASetNull | ASetDefault | ARestrict | ANoAction.
 Record fkey := mkfk {
   fname : str; fcols : list str; fptable : str; fpcols : list str; fondel : option action; fonupd : option action }.
 
+Record check := mkchk { kname : str; kexpr : str; kenforced : bool }.
+
 Record table := mktable {
-  tname : str; tcols : list column; tpk : list str; tidx : list index; tfks : list fkey;
-  tautoinc : option str; tcoll : coll; tcomment : str }.
+  ttemp : bool; tname : str; tcols : list column; tpk : list str; tidx : list index; tfks : list fkey;
+  tchecks : list check; tautoinc : option str; tcoll : coll; tcomment : str }.
 
 (* ---------- keywords ---------- *)
 
@@ -165,7 +172,15 @@ Definition kw_constraint : str := K "CONSTRAINT ".
 Definition kw_fk : str := K " FOREIGN KEY (".
 Definition kw_references : str := K ") REFERENCES ".
 Definition kw_ondelete : str := K " ON DELETE ".
-Definition kw_create : str := K "CREATE TABLE ".
+Definition kw_create : str := K "CREATE".
+Definition kw_temporary : str := K " TEMPORARY".
+Definition kw_table : str := K " TABLE ".
+Definition kw_generated : str := K " GENERATED ALWAYS AS (".
+Definition kw_stored : str := K " STORED".
+Definition kw_check : str := K " CHECK (".
+Definition kw_notenforced : str := K " /*!80016 NOT ENFORCED */".
+Definition kw_bit : str := K "b'".
+Definition kw_hex : str := K "0x".
 Definition kw_open : str := [32; 40; 10].               (* " (\n" *)
 Definition kw_itemsep : str := [44; 10].                (* ",\n" *)
 Definition kw_engine : str := 10 :: K ") ENGINE=InnoDB".
@@ -258,6 +273,9 @@ Definition print_def (t : ctype) (d : dflt) : str :=
   match d with
   | DNull => kw_null
   | DNow p => print_now p
+  | DExpr e => paren e
+  | DBit b => kw_bit ++ b ++ [39]
+  | DHex h => kw_hex ++ h
   | DQuoted s =>
     match t with
     | TyEnum vs _ =>      (* Eval converts to the member index, printed with %v *)
@@ -271,7 +289,8 @@ Definition print_col (tc : coll) (c : column) : str :=
   [32; 32] ++ quote_id (cname c) ++ [32] ++ print_type tc (cty c) ++
   (if cnull c then [] else kw_notnull) ++
   (if cauto c then kw_autoinc else []) ++
-  (match cdef c with None => [] | Some d => kw_default ++ print_def (cty c) d end) ++
+  (match cgen c with None => [] | Some (e, st) => kw_generated ++ e ++ [41] ++ (if st then kw_stored else []) end) ++
+  (match cgen c, cdef c with None, Some d => kw_default ++ print_def (cty c) d | _, _ => [] end) ++
   (match conupd c with None => [] | Some p => kw_onupdate ++ print_now p end) ++
   (match ccomment c with [] => [] | cm => kw_comment ++ esc_comment cm ++ [39] end).
 
@@ -292,7 +311,12 @@ Definition print_fk (f : fkey) : str :=
   (match fondel f with None => [] | Some a => kw_ondelete ++ action_name a end) ++
   (match fonupd f with None => [] | Some a => kw_onupdate ++ action_name a end).
 
-Inductive item := ICol (c : column) | IPk (cols : list str) | IIdx (i : index) | IFk (f : fkey).
+(* GenerateCreateTableCheckConstraintClause *)
+Definition print_check (k : check) : str :=
+  [32; 32] ++ kw_constraint ++ quote_id (kname k) ++ kw_check ++ kexpr k ++ [41] ++
+  (if kenforced k then [] else kw_notenforced).
+
+Inductive item := ICol (c : column) | IPk (cols : list str) | IIdx (i : index) | IFk (f : fkey) | ICheck (k : check).
 
 Definition print_item (tc : coll) (it : item) : str :=
   match it with
@@ -300,15 +324,23 @@ Definition print_item (tc : coll) (it : item) : str :=
   | IPk cols => print_pk cols
   | IIdx i => print_idx i
   | IFk f => print_fk f
+  | ICheck k => print_check k
   end.
 
-(* produceCreateTableStatement: columns, primary key (if any), indexes, foreign keys *)
+Definition is_virtual (c : column) : bool := match cgen c with Some (_, false) => true | _ => false end.
+
+(* produceCreateTableStatement: columns, primary key (if any), indexes, foreign keys, checks.
+   Quirk mirrored: when the table has a VIRTUAL generated column the plan node is not a bare ResolvedTable and
+   ShowCreateTable.Checks() is empty, so no CHECK constraint is printed. *)
+Definition shown_checks (t : table) : list check := if existsb is_virtual (tcols t) then [] else tchecks t.
+
 Definition items_of (t : table) : list item :=
-  map ICol (tcols t) ++ (match tpk t with [] => [] | pk => [IPk pk] end) ++ map IIdx (tidx t) ++ map IFk (tfks t).
+  map ICol (tcols t) ++ (match tpk t with [] => [] | pk => [IPk pk] end) ++ map IIdx (tidx t) ++ map IFk (tfks t) ++
+  map ICheck (shown_checks t).
 
 (* GenerateCreateTableStatement *)
 Definition print_table (t : table) : str :=
-  kw_create ++ quote_id (tname t) ++ kw_open ++
+  kw_create ++ (if ttemp t then kw_temporary else []) ++ kw_table ++ quote_id (tname t) ++ kw_open ++
   joins kw_itemsep (map (print_item (tcoll t)) (items_of t)) ++
   kw_engine ++
   (match tautoinc t with None => [] | Some n => kw_tautoinc ++ n end) ++
@@ -387,6 +419,29 @@ Fixpoint scan_raw (inp : str) : option (str * str) :=
   | [] => None
   | c :: r => if c =? 39 then Some ([], r) else cons_fst c (scan_raw r)
   end.
+
+(* text up to the parenthesis that closes depth d (expressions are opaque) *)
+Fixpoint scan_bal (d : nat) (inp : str) : option (str * str) :=
+  match inp with
+  | [] => None
+  | c :: r =>
+    if c =? 41 then match d with O => Some ([], r) | S d' => cons_fst c (scan_bal d' r) end
+    else if c =? 40 then cons_fst c (scan_bal (S d) r)
+    else cons_fst c (scan_bal d r)
+  end.
+
+(* depth after reading e from depth d; None if a closing parenthesis has no partner *)
+Fixpoint bal (d : nat) (e : str) : option nat :=
+  match e with
+  | [] => Some d
+  | c :: r =>
+    if c =? 41 then match d with O => None | S d' => bal d' r end
+    else if c =? 40 then bal (S d) r
+    else bal d r
+  end.
+
+Definition bitch (c : N) : bool := (c =? 48) || (c =? 49).
+Definition hexch (c : N) : bool := ((48 <=? c) && (c <=? 57)) || ((65 <=? c) && (c <=? 70)).
 
 Definition p_digits (inp : str) : option (str * str) :=
   match span digitch inp with
@@ -550,7 +605,20 @@ Definition p_def (inp : str) : option (dflt * str) :=
     | Some (p, r) => Some (DNow p, r)
     | None => match p_qstr (Some unesc_lit) inp with
               | Some (s, r) => Some (DQuoted s, r)
-              | None => None
+              | None =>
+                match strip [40] inp with
+                | Some r => match scan_bal 0 r with Some (e, r') => Some (DExpr e, r') | None => None end
+                | None =>
+                  match strip kw_bit inp with
+                  | Some r => let '(b, r1) := span bitch r in
+                              match strip [39] r1 with Some r' => Some (DBit b, r') | None => None end
+                  | None =>
+                    match strip kw_hex inp with
+                    | Some r => let '(h, r') := span hexch r in Some (DHex h, r')
+                    | None => None
+                    end
+                  end
+                end
               end
     end
   end.
@@ -570,6 +638,15 @@ Definition p_optupd (r4 : str) : option (option N * str) :=
   | None => Some (None, r4)
   end.
 
+Definition p_optgen (r3 : str) : option (option (str * bool) * str) :=
+  match strip kw_generated r3 with
+  | Some r => match scan_bal 0 r with
+              | Some (e, r') => let '(st, r'') := p_flag kw_stored r' in Some (Some (e, st), r'')
+              | None => None
+              end
+  | None => Some (None, r3)
+  end.
+
 Definition p_optcomment (r5 : str) : option (str * str) :=
   match strip kw_comment r5 with
   | Some r => scan 39 (Some unesc_comment) r
@@ -586,16 +663,20 @@ Definition p_col (inp : str) : option (column * str) :=
     | Some (ty, r1) =>
       let '(nn, r2) := p_flag kw_notnull r1 in
       let '(ai, r3) := p_flag kw_autoinc r2 in
-      match p_optdef r3 with
+      match p_optgen r3 with
+      | Some (gn, r3') =>
+      match p_optdef r3' with
       | Some (df, r4) =>
         match p_optupd r4 with
         | Some (ou, r5) =>
           match p_optcomment r5 with
-          | Some (cm, r6) => Some (mkcol name ty (negb nn) ai df ou cm, r6)
+          | Some (cm, r6) => Some (mkcol name ty (negb nn) ai gn df ou cm, r6)
           | None => None
           end
         | None => None
         end
+      | None => None
+      end
       | None => None
       end
     | None => None
@@ -699,6 +780,19 @@ Definition p_fk (inp : str) : option (fkey * str) :=
   | None => None
   end.
 
+Definition p_check (inp : str) : option (check * str) :=
+  match p_qid inp with
+  | Some (name, r0) =>
+    match strip kw_check r0 with
+    | Some r => match scan_bal 0 r with
+                | Some (e, r') => let '(ne, r'') := p_flag kw_notenforced r' in Some (mkchk name e (negb ne), r'')
+                | None => None
+                end
+    | None => None
+    end
+  | None => None
+  end.
+
 Definition p_item (inp : str) : option (item * str) :=
   match strip [32; 32] inp with
   | Some r =>
@@ -718,7 +812,10 @@ Definition p_item (inp : str) : option (item * str) :=
           | Some r1 => match p_idx false r1 with Some (i, r') => Some (IIdx i, r') | None => None end
           | None =>
             match strip kw_constraint r with
-            | Some r1 => match p_fk r1 with Some (f, r') => Some (IFk f, r') | None => None end
+            | Some r1 => match p_fk r1 with
+                         | Some (f, r') => Some (IFk f, r')
+                         | None => match p_check r1 with Some (k, r') => Some (ICheck k, r') | None => None end
+                         end
             | None => None
             end
           end
@@ -736,10 +833,15 @@ Definition idx_of (l : list item) : list index :=
   flat_map (fun it => match it with IIdx i => [i] | _ => [] end) l.
 Definition fks_of (l : list item) : list fkey :=
   flat_map (fun it => match it with IFk f => [f] | _ => [] end) l.
+Definition checks_of (l : list item) : list check :=
+  flat_map (fun it => match it with ICheck k => [k] | _ => [] end) l.
 
 Definition parse_table (inp : str) : option table :=
   match strip kw_create inp with
-  | Some r0 =>
+  | Some r00 =>
+   let '(tmp, r01) := p_flag kw_temporary r00 in
+   match strip kw_table r01 with
+   | Some r0 =>
     match p_qid r0 with
     | Some (name, r1) =>
       match strip kw_open r1 with
@@ -765,12 +867,12 @@ Definition parse_table (inp : str) : option table :=
                     match strip kw_tcomment r9 with
                     | Some r10 =>
                       match scan 39 (Some unesc_comment) r10 with
-                      | Some (cm, []) => Some (mktable name (cols_of its) (pk_of its) (idx_of its) (fks_of its) oai tc cm)
+                      | Some (cm, []) => Some (mktable tmp name (cols_of its) (pk_of its) (idx_of its) (fks_of its) (checks_of its) oai tc cm)
                       | _ => None
                       end
                     | None =>
                       match r9 with
-                      | [] => Some (mktable name (cols_of its) (pk_of its) (idx_of its) (fks_of its) oai tc [])
+                      | [] => Some (mktable tmp name (cols_of its) (pk_of its) (idx_of its) (fks_of its) (checks_of its) oai tc [])
                       | _ => None
                       end
                     end
@@ -790,6 +892,8 @@ Definition parse_table (inp : str) : option table :=
       end
     | None => None
     end
+   | None => None
+   end
   | None => None
   end.
 
@@ -817,22 +921,33 @@ Definition wf_type (tc : coll) (t : ctype) : bool :=
 
 Definition is_enum_or_set (t : ctype) : bool := match t with TyEnum _ _ | TySet _ _ => true | _ => false end.
 
+Definition is_binary (t : ctype) : bool := match t with TyBinary _ | TyVarbinary _ | TyBlob _ => true | _ => false end.
+Definition wf_expr (e : str) : bool := match bal 0 e with Some O => true | _ => false end.
+
 Definition wf_def (t : ctype) (d : dflt) : bool :=
   match d with
   | DNull => true
   | DNow p => prec_ok p
-  | DQuoted s => negb (is_enum_or_set t) && (lit_is_escaped t || no_quote_bs s)
+  | DQuoted s => negb (is_enum_or_set t) && negb (is_binary t) && (lit_is_escaped t || no_quote_bs s)
+  | DExpr e => wf_expr e
+  | DBit b => nonempty b && forallb bitch b
+  | DHex h => forallb hexch h
   end.
 
 Definition wf_col (tc : coll) (c : column) : bool :=
   wf_type tc (cty c) &&
   (match cdef c with None => true | Some d => wf_def (cty c) d end) &&
+  (match cgen c with None => true | Some (e, _) => wf_expr e && match cdef c with None => true | Some _ => false end end) &&
   (match conupd c with None => true | Some p => prec_ok p end).
 
 Definition wf_icol (c : str * option str) : bool := match snd c with None => true | Some n => is_num n end.
 Definition wf_idx (i : index) : bool := nonempty (icols i) && forallb wf_icol (icols i) && no_quote (icomment i).
 Definition wf_fk (f : fkey) : bool := nonempty (fcols f) && nonempty (fpcols f).
 
+Definition wf_check (k : check) : bool := wf_expr (kexpr k).
+
+(* with a VIRTUAL generated column the checks are not printed: such a schema is well-formed only without checks *)
 Definition wf_table (t : table) : bool :=
   nonempty (tcols t) && forallb (wf_col (tcoll t)) (tcols t) && forallb wf_idx (tidx t) && forallb wf_fk (tfks t) &&
+  forallb wf_check (tchecks t) && (negb (existsb is_virtual (tcols t)) || negb (nonempty (tchecks t))) &&
   (match tautoinc t with None => true | Some n => is_num n end).
